@@ -30,8 +30,9 @@ Fixpoint span_len (f : N -> bool) (s : str) : nat :=
 Fixpoint memc (c : N) (s : str) : bool :=
   match s with [] => false | x :: s' => N.eqb x c || memc c s' end.
 
-(* fixed = true: in the balanced case keep c2 exactly when a comma precedes (c1 is
-   tested for a comma, not for being non-empty) *)
+(* fixed = true (the code as it is since fix commit 2ad4134): in the balanced case keep c2
+   exactly when a comma precedes (c1 is tested for a comma).  fixed = false is the behaviour
+   before that commit (c1 tested for being non-empty). *)
 Definition remover (fixed : bool) (c1 p1 p2 c2 : str) : str :=
   let n1 := count ch_open p1 in
   let n2 := count ch_close p2 in
@@ -175,9 +176,11 @@ Fixpoint resub_iter (fuel : nat) (lit s : str) : str :=
 Definition remove_ref_fixed (lit s : str) : str := resub_iter (length s) lit s.
 
 (* replace_ref(text, oldvalue = "{ref}", newvalue).
-   fixed = false: the code as it is.  fixed = true: the repaired behaviour
-   (an empty replacement is treated like "n/a"; the reference is re.escape()d;
-   occurrences are removed one at a time). *)
+   fixed = true: the code as it is now, i.e. /repo since the fix commits a455136 (an empty
+   replacement is treated like "n/a"), 37fb060 (the reference is re.escape()d), 2ad4134
+   (_remover tests for a comma) and a8ad4f5 (occurrences are removed one at a time).
+   fixed = false: the behaviour BEFORE those commits, kept only as the record of the
+   repaired defects (it is not a model of the current implementation). *)
 Definition replace_ref (fixed : bool) (text ref newvalue : str) : res str :=
   let old := brace ref in
   if fixed then
